@@ -1,15 +1,22 @@
+import glob
 import json
 import os
 
 from . import env
 
 PATH = os.path.join(env.VERIF, "known_findings.json")
+FRAG = os.path.join(env.VERIF, "findings.d")
 
 
 def load():
-    if not os.path.exists(PATH):
-        return []
-    return json.load(open(PATH))["findings"]
+    """known_findings.json plus per-property fragments findings.d/<ID>.json (same entry format).
+    Both are committed; neither is ever written at run time."""
+    out = []
+    if os.path.exists(PATH):
+        out += json.load(open(PATH))["findings"]
+    for f in sorted(glob.glob(os.path.join(FRAG, "*.json"))):
+        out += json.load(open(f))["findings"]
+    return out
 
 
 def known_for(pid):
